@@ -57,8 +57,7 @@ class _InMemoryConsumer(ConsumerT):
         for msg in list(self._queue.processing):
             if self._queue.taken_by.get(msg.key.id_) is self:
                 self._queue.processing.remove(msg)
-                self._queue.taken_by.pop(msg.key.id_, None)
-                self._queue.simple.put_nowait(msg)
+                self._queue.put_back(msg)
         await asyncio.sleep(0)
 
     def __update_delayed(self) -> None:
